@@ -2,6 +2,8 @@ use std::cell::RefCell;
 use std::fmt::{self, Write as _};
 
 use crate::runtime::RunState;
+#[cfg(lace_verif)]
+use crate::{verif_eprint as eprint, verif_eprintln as eprintln, verif_print as print};
 
 /// Colors used by [`Output::Debugger`].
 ///
